@@ -27,10 +27,11 @@ pub struct Direct {
     /// the chain-level (wasm module) admin of the contract under test, i.e. who may migrate it; answered
     /// to `WasmQuery::ContractInfo` about the contract's own address. None: the chain knows no admin.
     pub chain_admin: Option<Addr>,
-    /// other contracts the chain knows: address -> the JSON they answer every smart query with (an obliging
-    /// peer, e.g. a proxy that says `{"can_execute":true}` to whoever asks). Nothing asks unless the contract
+    /// other contracts the chain knows: address -> (text that occurs in the query message, JSON answer) pairs;
+    /// the first pair whose text occurs in the smart query answers it ("" matches every query) - an obliging
+    /// peer, e.g. a proxy that says `{"can_execute":true}` to whoever asks. Nothing asks unless the contract
     /// under test does.
-    pub peers: std::collections::BTreeMap<String, Vec<u8>>,
+    pub peers: std::collections::BTreeMap<String, Vec<(String, Vec<u8>)>>,
     pub calls_ok: u64,
     pub calls_err: u64,
     pub calls_panic: u64,
@@ -117,8 +118,12 @@ impl Direct {
         let creator = self.api.addr_make("creator");
         let peers = self.peers.clone();
         q.update_wasm(move |w| match w {
-            cosmwasm_std::WasmQuery::Smart { contract_addr, .. } if peers.contains_key(contract_addr) => {
-                cosmwasm_std::SystemResult::Ok(cosmwasm_std::ContractResult::Ok(cosmwasm_std::Binary::from(peers[contract_addr].clone())))
+            cosmwasm_std::WasmQuery::Smart { contract_addr, msg } if peers.contains_key(contract_addr) => {
+                let text = String::from_utf8_lossy(msg.as_slice()).to_string();
+                match peers[contract_addr].iter().find(|(needle, _)| text.contains(needle.as_str())) {
+                    Some((_, answer)) => cosmwasm_std::SystemResult::Ok(cosmwasm_std::ContractResult::Ok(cosmwasm_std::Binary::from(answer.clone()))),
+                    None => cosmwasm_std::SystemResult::Ok(cosmwasm_std::ContractResult::Err("unknown query".to_string())),
+                }
             }
             cosmwasm_std::WasmQuery::ContractInfo { contract_addr } if peers.contains_key(contract_addr) => {
                 let info = cosmwasm_std::ContractInfoResponse::new(2, creator.clone(), None, false, None);
